@@ -381,6 +381,9 @@ func (f *g2lFn) retExpr(r ast.Expr, i int) string {
 	if tv, ok := f.g.info.Types[r]; ok && tv.Type != nil && g2lIsPtr(tv.Type) {
 		return f.asOpt(r)
 	}
+	if s, ok := f.errorConv(r, i); ok { // go2lean_refs.go: a concrete value returned as an error
+		return s
+	}
 	return f.expr(r)
 }
 
